@@ -24,6 +24,7 @@ func main() {
 	list := flag.Bool("list", false, "list properties with a registered check")
 	selftest := flag.String("selftest", "", "thorough: JSON result of tools/selftest.py for this property, merged into the evidence")
 	xref := flag.String("xref", "", "thorough: JSON with counts of the generic cross-reference tools (informational)")
+	all := flag.Bool("all", false, "development aid: load the tree once and run every registered check, one summary line per property (used by tools/mutsweep.py)")
 	inventory := flag.Bool("inventory", false, "print the function inventory of the tree (format of internal/inline/baseline.txt)")
 	flag.Parse()
 	if *inventory {
@@ -65,6 +66,41 @@ func main() {
 			os.Exit(2)
 		}
 		*prop = want.Property
+	}
+	if *all {
+		t0 := time.Now()
+		p, err := core.Load(*repo)
+		if err != nil {
+			fmt.Printf("ALL load-failed %v\n", err)
+			os.Exit(2)
+		}
+		var ids []string
+		for id := range rules.Registry {
+			ids = append(ids, id)
+		}
+		sort.Strings(ids)
+		worst := 0
+		for _, id := range ids {
+			code := func() (code int) {
+				defer func() {
+					if e := recover(); e != nil {
+						fmt.Printf("ALLPANIC %s %v\n", id, e)
+						code = 2
+					}
+				}()
+				run, err := core.NewRun(id, "quick", *verif, p, t0)
+				if err != nil {
+					return 2
+				}
+				rules.Registry[id](run)
+				return run.Finish()
+			}()
+			fmt.Printf("ALLRESULT %s exit=%d\n", id, code)
+			if code > worst {
+				worst = code
+			}
+		}
+		os.Exit(worst)
 	}
 	f, ok := rules.Registry[*prop]
 	if !ok {
